@@ -15,10 +15,10 @@ for p in sys.argv[1:]:
     j = json.load(open(p))
     for a in j['adts']:
         adts.setdefault(a['path'].replace('mrecordlog::', ''), [{'name': v['name'], 'fields': [[f['name'], f['ty']] for f in v['fields']]} for v in a['variants']])
-consts = set()
+consts = {}
 for p in sys.argv[1:]:
     j = json.load(open(p))
     for c in j['consts']:
         if c.get('value') is not None and '__CALLSITE' not in c['path']:
-            consts.add(c['path'].replace('mrecordlog::', ''))
-json.dump({'consts': sorted(consts), 'adts': {k: adts[k] for k in sorted(adts)}, '_comment': 'functions of the tree the rules were confirmed on (path -> signature, parent); any other crate-local fn is an unknown helper and is inlined into its callers before analysis, unless it takes the place of a listed function that disappeared (same parent, same signature = a rename) (checker/inline.py)', 'fns': {k: fns[k] for k in sorted(fns)}}, sys.stdout, indent=0)
+            consts[c['path'].replace('mrecordlog::', '')] = str(c['value'])
+json.dump({'consts': {k: consts[k] for k in sorted(consts)}, 'adts': {k: adts[k] for k in sorted(adts)}, '_comment': 'functions of the tree the rules were confirmed on (path -> signature, parent); any other crate-local fn is an unknown helper and is inlined into its callers before analysis, unless it takes the place of a listed function that disappeared (same parent, same signature = a rename) (checker/inline.py)', 'fns': {k: fns[k] for k in sorted(fns)}}, sys.stdout, indent=0)
